@@ -95,9 +95,10 @@ fn run_schedule(cx: &mut Ctx, ex: &Exchange, r: &mut Rng, mode: usize) {
     // (the body is written into a buffer of ONE such size for the whole exchange: a size at which nothing fits
     // must not exist)
     let fixed_body_cap = *r.pick(&[20usize, 21, 22, 261, 262, 263, 4103, 4104]);
-    let cap_of = |r: &mut Rng| -> usize { match mode { 0 => 100000, 1 => 1 + r.below(8), 2 => *r.pick(&[5usize, 6, 7, 16, 30, 64]), 3 => r.range(1, 300), 5 => *r.pick(&[64usize, 300, 5000]), 6 => *r.pick(&[20496usize, 20502, 20600, 30744, 65536]), _ => *r.pick(&[1usize, 2, 3, 20, 100000]) } };
+    let cap_of = |r: &mut Rng| -> usize { match mode { 0 => 100000, 1 => 1 + r.below(8), 2 => *r.pick(&[5usize, 6, 7, 16, 30, 64]), 3 => r.range(1, 300), 5 => *r.pick(&[64usize, 300, 5000]), 6 => *r.pick(&[20496usize, 20502, 20600, 30744, 65536]), 7 => 100000, _ => *r.pick(&[1usize, 2, 3, 20, 100000]) } };
     let big = ex.payload.len() > 1000 || ex.stream.len() > 3000;
-    let step_of = |r: &mut Rng| -> usize { match mode { 0 | 5 | 6 => 100000, 1 => if big { 37 } else { 1 }, 2 => if big { 50 } else { 1 + r.below(4) }, 3 => r.range(1, 60) * if big { 10 } else { 1 }, _ => *r.pick(&[1usize, 2, 7, 100000]) } };
+    let mut fives = 0usize;
+    let step_of = |r: &mut Rng| -> usize { match mode { 0 | 5 | 6 | 7 => 100000, 1 => if big { 37 } else { 1 }, 2 => if big { 50 } else { 1 + r.below(4) }, 3 => r.range(1, 60) * if big { 10 } else { 1 }, _ => *r.pick(&[1usize, 2, 7, 100000]) } };
     let query = |cx: &mut Ctx, r: &mut Rng| { if mode != 0 && r.chance(1, 4) { cx.op("canproceed"); } };
     let mut arrived = 0usize;
     let mut soff = 0usize;
@@ -136,7 +137,10 @@ fn run_schedule(cx: &mut Ctx, ex: &Exchange, r: &mut Rng, mode: usize) {
                 let chunked = cx.op("chunked?") == "bool true";
                 if boff < ex.payload.len() {
                     let upto = (boff + step_of(r).max(1)).min(ex.payload.len());
-                    let cap = if mode == 5 { fixed_body_cap } else if chunked { cap_of(r).max(6) } else { cap_of(r) };
+                    // a chunked write needs 6 bytes to make progress; room of exactly 5 bytes (nothing fits but the
+                    // terminator would) is offered now and then, and 5 bytes behind a full chunk in mode 7
+                    let cap = if mode == 5 { fixed_body_cap } else if mode == 7 { 10253 }
+                              else if chunked { if fives < 3 && r.chance(1, 4) { fives += 1; 5 } else { cap_of(r).max(6) } } else { cap_of(r) };
                     let res = cx.op(&format!("bwrite {} {}", hx(&ex.payload[boff..upto]), cap));
                     let p: Vec<&str> = res.split(' ').collect();
                     if p[0] == "bytes" { boff += p[1].parse::<usize>().unwrap_or(0); } else { return; }
@@ -350,7 +354,7 @@ pub fn c01(cx: &mut Ctx) {
         let msglen = stream.len();
         stream.extend_from_slice(NEXT);
         let ex = Exchange { req: "POST HTTP/1.1 http://a.test/path?q=1 1 x-trace 616263".into(), payload, stream, msglen, forbid: None, close: false, expect: false, body_method: true };
-        for (s, mode) in [0usize, 6, 6, 6, 3, 5].iter().enumerate() {
+        for (s, mode) in [0usize, 6, 6, 6, 3, 5, 7].iter().enumerate() {
             let mut r = cx.case("xb");
             let _ = s;
             cx.meta(&format!("group b{}", k));
